@@ -184,9 +184,10 @@ LostWake(s) == \E c \in Held(s) : s.ch[c].ob
 \* The same fault is also: a merge that answers Pending although a notified source has not been asked (C11: "Pending only
 \* while some source is pending"), and a poll that stopped at its budget without waking its task (C13: "when it stops
 \* early it has woken its task so the rest is not forgotten").
+LostWhy == "Pending/asleep with an un-polled woken or new child and the task waker of the latest poll not invoked"
 CheckLost(s) ==
   IF ~s.inpoll /\ s.inwake = 0 /\ s.lastret = "pending" /\ ~s.dead /\ ~s.woken /\ LostWake(s)
-  THEN LET s1 == V(s, "C01", "Pending/asleep with an un-polled woken or new child and the task waker of the latest poll not invoked")
+  THEN LET s1 == V(s, "C01", LostWhy)
            s2 == IF s.kind \in MergeKinds
                  THEN V(s1, "C11", "Pending although a source that was notified has not been polled, and the task was not woken")
                  ELSE s1
@@ -316,7 +317,12 @@ StepRet(s, e) ==
                       EXCEPT !.qn = 0, !.act = TRUE]
                [] e.res = "pending" ->
                     LET a == Chk(s1, ~Finished(s1), DeliveryProp(s.kind), "Pending although nothing is held, parked or left upstream")
-                        b == CheckLost(a)
+                        b0 == CheckLost(a)
+                        \* (a poll that returns with woken children still waiting has stopped early; C13: "when it stops
+                        \*  early it has woken its task so the rest is not forgotten" - whatever made it stop)
+                        b == IF <<"C01", LostWhy>> \in b0.viol /\ <<"C01", LostWhy>> \notin a.viol
+                             THEN V(b0, "C13", "the poll stopped with woken children still waiting and did not wake its task: the rest is forgotten")
+                             ELSE b0
                         \* C09: work conserving
                         c == IF s.kind \in AdapterKinds /\ s.n >= 1
                              THEN Chk(b, Pop(b) >= s.n \/ s.upDone \/ s.upPend, "C09",
